@@ -240,6 +240,37 @@ def atoms_of_tok(t, out):
     return out
 
 
+def tree_tokens(t):
+    k = t[0]
+    if k == "U": return ["U", tx(t[1])]
+    if k == "R": return ["R", tx(t[1]), tx(t[2])]
+    if k == "I": return ["I", tx(t[1]), str(t[2])]
+    if k == "N": return ["N"] + tree_tokens(t[1])
+    return [k, str(len(t[1]))] + [x for c in t[1] for x in tree_tokens(c)]
+
+
+def canon_print(t):
+    """mirror of the Lean `print` (Model/C42_Print.lean); returns (text, number of parenthesised groups).
+    The driver's `pr` op must produce the same text - the model predicts the string, the real parser reads it."""
+    groups = [0]
+    def arg(a):
+        if a != "" and not (set(a) & RESERVED): return a
+        return '"' + "".join("\\" + c if c in '"\\' else "\\n" if c == "\n" else "\\r" if c == "\r" else c for c in a) + '"'
+    def pr(lvl, w, t):
+        k = t[0]
+        if k == "U": return w + "~" + t[1]
+        if k == "R": return w + "~" + t[1] + " " + arg(t[2])
+        if k == "I": return w + "~" + t[1] + " " + str(t[2])
+        if k == "N": return w + "!" + pr(1, "", t[1])
+        kd, need = (2, "&") if k == "A" else (3, "|")
+        if lvl >= kd: return prl(kd, need, w, t[1])
+        groups[0] += 1
+        return w + "(" + prl(kd, need, "", t[1]) + ")"
+    def prl(kd, op, w, l):
+        return pr(kd - 1, w, l[0]) + "".join(" " + op + pr(kd - 1, " ", x) for x in l[1:])
+    return pr(3, "", t), groups[0]
+
+
 def tree_ops(t):
     if t[0] in "URI": return 0
     if t[0] == "N": return 1 + tree_ops(t[1])
@@ -415,31 +446,42 @@ QUOTE_SOUP = ["\\", "\\\\", "x", "u", "0", "3", "2", "4", "a", "F", "g", "t", "n
 class Check(PropertyCheck):
     prop = "C42"
     design_ref = "§5 C42"
-    level_text = ("Lean theorems parse_render / parse_render_exact / parse_render_struct: for EVERY expression tree whose regexes "
-                  "compile and EVERY documented way of writing it (`Renders`: any white space before any token, redundant parentheses "
-                  "anywhere, `&` or juxtaposition, unquoted or quoted arguments with escapes, leading zeros) the modelled parser accepts "
-                  "the text and returns exactly that tree, hence the documented verdict on every flow whatever the leaves answer; "
-                  "parse_render_uncompilable (the only refusals are non-compiling regexes), eval_documented (not / all / any), and the "
-                  "precedence statements not_tighter_than_and, and_tighter_than_or, juxtaposition_loosest as corollaries - proved by "
-                  "mutual induction over the concrete syntax, no bounds. The model transcribes the pyparsing grammar of "
-                  "flowfilter._make (MatchFirst order of the operator tables, WordEnd(alphanums), CharsNotIn words, QuotedString "
-                  "unescaping as pyparsing 3.3.2 really does it, infix_notation([!,&,|]) inside OneOrMore, groups holding a whole "
-                  "expression, tabs kept); the operator tables are regenerated from flowfilter.py on every run and their side "
-                  "conditions (alphanumeric, disjoint) re-proved by evaluation. Tie: the compiled model is compared with the real "
-                  "flowfilter.parse on every generated rendering and on mutated/raw strings (same tree or same refusal, same verdicts "
-                  "on a pool of 48 flows of every type when fed the real leaves' verdicts); every generated layout is also sent as a "
-                  "term of the Lean concrete syntax and must print (Lean `render`) to the tested text, satisfy the Lean `WF` and "
-                  "denote (Lean `ast`) the tested tree, so the tested texts are instances of the theorem's hypothesis; the real code "
-                  "is checked directly against the tree that was written and an independent reference reading of every operator.")
-    level_note = ("trusted/assumed: the regex engine is a parameter (`compiles`, per-leaf verdicts `Sem`): the theorem is stated for "
-                  "trees whose arguments compile and the generator only renders compiling regexes; which part of a flow each "
-                  "operator's regex is applied to is outside the Lean model and is checked only by the hand-written reference "
-                  "reading (one recorded deviation: F-C42a, ~h/~hq/~hs and `$`); pyparsing itself is modelled, not verified - the tie "
-                  "is differential; the model's paren-nesting fuel (len+1) and loop fuel are sufficient by construction but only the "
-                  "rendering theorem, not a general fuel-independence lemma, is proved; int() of more than 4300 digits (ValueError) "
-                  "and lone surrogates are outside the generated domain; parenthesis nesting in generated cases is capped (2 quick / "
-                  "3 thorough, and most cases have none) because pyparsing's infix_notation takes time exponential in it (~10 ms "
-                  "without, ~100 ms with one group, up to 1 s with two levels, minutes for some 3-level expressions of 200 characters; a generated case whose real parse exceeds 4 s quick / 12 s thorough is skipped) - the theorems have no such cap.")
+    level_text = ("Lean, for ALL trees / texts / flows / regex engines (mutual induction over the concrete syntax and over trees, no "
+                  "bounds): parse_render / parse_render_exact / parse_render_struct - every documented way of writing a tree "
+                  "(`Renders`: any white space before any token, redundant parentheses anywhere, `&` or juxtaposition, unquoted or "
+                  "quoted arguments with escapes, leading zeros) is accepted by the modelled parser and read back as exactly that "
+                  "tree; parse_render_uncompilable (the only refusals are non-compiling regexes); a total canonical printer with "
+                  "parse_print (parse . print = id for every operator code of the generated tables, every argument string incl. "
+                  "empty / quotes / backslashes / white space / parentheses / `~`, every number, any nesting), print_renders, "
+                  "printable_iff_parsable + not_printable_unparsable (the expressible trees are exactly: codes from the tables, "
+                  "FAnd/FOr with >= 2 members - nothing else is ever produced by the parser), print_parse_normal (print . parse is a "
+                  "normal form); the precedence statements not_tighter_than_and, and_tighter_than_or, juxtaposition_loosest; and "
+                  "evaluation as the Boolean algebra of the leaf verdicts for every tree: eval_not / eval_and_all / eval_or_any, "
+                  "eval_hom (homomorphic extension of the leaf valuation), eval_congr (depends on leaves only through their "
+                  "verdicts), double negation, De Morgan, flattening, permutation invariance, absorption of the one-member wrapper. "
+                  "The model transcribes the pyparsing grammar of flowfilter._make (MatchFirst order of the operator tables, "
+                  "WordEnd(alphanums), CharsNotIn words, QuotedString unescaping as pyparsing 3.3.2 really does it, "
+                  "infix_notation([!,&,|]) inside OneOrMore, groups holding a whole expression, tabs kept); the operator tables are "
+                  "regenerated from flowfilter.py on every run and their side conditions re-proved by evaluation. Tie: the compiled "
+                  "model is compared with the real flowfilter.parse on every generated rendering, on sequences, and on mutated/raw "
+                  "strings (same tree or same refusal, same verdicts on a pool of 48 flows of every type when fed the real leaves' "
+                  "verdicts); every generated layout is also sent as a term of the Lean concrete syntax and must print (Lean "
+                  "`render`) to the tested text, satisfy the Lean `WF` and denote the tested tree; the Lean `print` of every "
+                  "generated tree must equal the harness' canonical text, which the REAL parser must read back as the tree (the "
+                  "model predicts the string, the code parses it); the real code is checked directly against the tree that was "
+                  "written and an independent reference reading of every operator.")
+    level_note = ("still assumed / outside the proofs: the regex engine is a parameter (`compiles`, per-leaf verdicts `Sem`): the "
+                  "theorems hold for every engine, and the generator only renders compiling regexes; WHICH PART OF A FLOW each "
+                  "operator's regex is applied to, and what the unary operators test, is outside the Lean model and is checked only "
+                  "against the hand-written reference reading (one recorded deviation: F-C42a, ~h/~hq/~hs and `$`; its classifier is "
+                  "self-tested against near misses on every run); pyparsing itself is modelled, not verified - the tie is "
+                  "differential; the model's paren-nesting fuel (len+1) and loop fuel are sufficient by construction but only the "
+                  "rendering/printing theorems, not a general fuel-independence lemma, are proved; int() of more than 4300 digits "
+                  "(ValueError) and lone surrogates are outside the generated domain; parenthesis nesting in generated cases is "
+                  "capped (2 quick / 3 thorough, most cases have none) because pyparsing's infix_notation takes time exponential in "
+                  "it (~10 ms without, ~100 ms with one group, up to 1 s with two levels, minutes for some 3-level expressions of 200 "
+                  "characters; a generated case whose real parse exceeds 4 s quick / 12 s thorough is skipped; the canonical text is "
+                  "parsed by the real code only when it needs no more groups than the rendering did) - the theorems have no such cap.")
     technique = "Lean 4 proof (mutual induction over concrete syntax) + regenerated operator tables + differential correspondence with flowfilter.parse"
     rule = ("trees over all operator codes (unary / regex+argument / int / naked regex) with Not/And/Or: 60% shaped along the "
             "precedence levels (writable without parentheses, up to 4-5 levels deep), 25% arbitrary nesting up to the tier depth "
@@ -451,7 +493,7 @@ class Check(PropertyCheck):
             "must not depend on what was parsed before; 15% mutated renderings, raw token "
             "soups and quoted-escape soups for the model tie only. distinct = distinct text; non-trivial = not a bare unary code.")
     budget = {"quick": 8000, "thorough": 200000}
-    time_budget = {"quick": 24, "thorough": 540}
+    time_budget = {"quick": 18, "thorough": 540}
     fingerprints = ["mitmproxy.flowfilter:_make", "mitmproxy.flowfilter:parse", "mitmproxy.flowfilter:FAnd", "mitmproxy.flowfilter:FOr",
                     "mitmproxy.flowfilter:FNot", "mitmproxy.flowfilter:_Rex.__init__", "mitmproxy.flowfilter:_Int.__init__",
                     "mitmproxy.flowfilter:_Action.make", "mitmproxy.flowfilter:FUrl.make"]
@@ -695,7 +737,7 @@ class Check(PropertyCheck):
         if items is None: return self._mobs_one(case, replies)
         out, k = [], 0
         for it in items:
-            n = 2 if it.get("conc") else 1
+            n = 1 + (1 if it.get("conc") else 0) + (1 if it["kind"] == "render" else 0)
             out.append(self._mobs_one(it, replies[k:k + n])); k += n
         return out
 
@@ -714,7 +756,7 @@ class Check(PropertyCheck):
         if items is None: return self._branches_one(case, obs)
         out = ["seq", "seq-len:%d" % len(items)]
         for it, o in zip(items, obs["items"]):
-            out += [b for b in self._branches_one(it, o) if b in ("accepted", "rejected", "verdict-mixed")]
+            out += [b for b in self._branches_one(it, o) if b in ("accepted", "rejected", "verdict-mixed", "print-parsed")]
         return out
 
     # ---- implementation runner -----------------------------------------------------------------
@@ -749,6 +791,15 @@ class Check(PropertyCheck):
         atoms = atoms_of_tok(flt, [])
         bits = lambda t: "".join("1" if t(f) else "0" for f in self.pool)
         obs = {"shape": shape_of_tok(flt), "v": bits(flt), "atoms": [bits(a) for a in atoms]}
+        if case["kind"] == "render":
+            # the canonical text the Lean `print` predicts for the tree, through the real parser (when it costs no more
+            # parenthesised groups than the rendering itself did)
+            text, g = canon_print(case["tree"])
+            own = case["conc"].split().count("g") if case.get("conc") else 2
+            if g <= own:
+                try: obs["p_shape"] = shape_of_tok(self._parse_limited(text))
+                except ValueError: obs["p_shape"] = "reject"
+                except Skip: pass
         self._last_atoms[case["s_hex"]] = obs["atoms"]
         return obs
 
@@ -790,6 +841,9 @@ class Check(PropertyCheck):
         want = shape_of_tree(tree)
         if obs["shape"] != want:
             fails.append("tree: %r parsed as %s, written as %s" % (untx(case["s_hex"]), obs["shape"], want))
+        # the same for the canonical spelling of the tree (parse . print = id)
+        if obs.get("p_shape") is not None and obs["p_shape"] != want:
+            fails.append("print: canonical text %r parsed as %s, written as %s" % (canon_print(tree)[0], obs["p_shape"], want))
         # "for every flow its verdict equals the documented semantics"
         ref = "".join("1" if x else "0" for x in self.ref_eval(tree))
         if obs["v"] != ref:
@@ -872,18 +926,19 @@ class Check(PropertyCheck):
             # the layout the harness chose, as a term of the Lean concrete syntax `C`: the driver prints it with the Lean
             # `render`, decides the Lean `WF` and computes the Lean `ast` - so the strings tested are `Renders` instances
             lines.append("rn " + case["conc"])
+        if case["kind"] == "render":
+            lines.append("pr " + " ".join(tree_tokens(case["tree"])))      # Lean `print` of the tree
         return lines
 
     def _mobs_one(self, case, replies):
-        r = replies[0]
-        if r == "reject": return ["reject", None] + ([replies[1]] if len(replies) > 1 else [])
+        r, extra = replies[0], list(replies[1:])      # extra: the `rn` reply (if the case carries its layout), the `pr` reply
+        if r == "reject": return ["reject", None] + extra
         shape, _, v = r.partition(" ")
         for code, h in re.findall(r"R(\w+):([0-9a-f]+|-)", shape):
-            if not compiles(code, untx(h)): return ["reject", None] + ([replies[1]] if len(replies) > 1 else [])      # the `compiles` parameter, instantiated with CPython re
+            if not compiles(code, untx(h)): return ["reject", None] + extra      # the `compiles` parameter, instantiated with CPython re
         for n in re.findall(r"I\w+:(\d+)", shape):
-            if len(n) > 4300: return ["reject", None] + ([replies[1]] if len(replies) > 1 else [])
-        out = [shape, v if v != "-" else None]
-        return out + [replies[1]] if len(replies) > 1 else out
+            if len(n) > 4300: return ["reject", None] + extra
+        return [shape, v if v != "-" else None] + extra
 
     def _iview_one(self, case, obs):
         out = [obs["shape"], obs["v"]]
@@ -891,6 +946,8 @@ class Check(PropertyCheck):
             s = untx(case["s_hex"]); trail = untx(case["trail_hex"])
             body = s[:len(s) - len(trail)] if trail else s
             out.append("%s 1 %s" % (tx(body), shape_of_tree(case["tree"])))
+        if case["kind"] == "render":
+            out.append(tx(canon_print(case["tree"])[0]))
         return out
 
     def _classify_one(self, case, obs):
@@ -911,4 +968,5 @@ class Check(PropertyCheck):
             if '"' in s or "'" in s: out.append("quoted")
             if "\t" in s: out.append("tab")
             if obs["v"] and "1" in obs["v"] and "0" in obs["v"]: out.append("verdict-mixed")
+            if obs.get("p_shape") is not None: out.append("print-parsed")
         return out
